@@ -75,3 +75,30 @@ func variantB(file string) string {
 	}
 	return fb
 }
+
+// variantC writes a copy of the VC without the typing facts of the entry heaps (the
+// lines marked "; wf").  Dropping hypotheses is sound; on quantifier-heavy goals the
+// typing facts were seen to send every solver into a time-out that the same goal
+// without them does not have.
+func variantC(file string) string {
+	b, err := os.ReadFile(file)
+	if err != nil {
+		return ""
+	}
+	s := string(b)
+	if !strings.Contains(s, ") ; wf\n") {
+		return ""
+	}
+	var sb strings.Builder
+	for _, l := range strings.SplitAfter(s, "\n") {
+		if strings.HasSuffix(l, ") ; wf\n") {
+			continue
+		}
+		sb.WriteString(l)
+	}
+	fc := strings.TrimSuffix(file, ".smt2") + ".c.smt2"
+	if os.WriteFile(fc, []byte(sb.String()), 0o644) != nil {
+		return ""
+	}
+	return fc
+}
